@@ -39,24 +39,38 @@ struct Value {
     static std::vector<Value> parse_args(const std::vector<const char*> args) {
         std::vector<Value> result;
         std::string accum = "";
+        int depth = 0; // bracket nesting depth of the argument being accumulated
         for (auto& v : args) {
             size_t vlen = strlen(v);
             if (accum != "") {
+                // inside a bracketed script that was split over several arguments (e.g. by the shell): keep joining
+                // until the brackets balance, then parse the whole "[...]" as one value
                 accum += std::string(" ") + v;
-                if (vlen > 0 && v[vlen-1] == ']') {
-                    result.emplace_back(accum.c_str(), accum.length() - 1);
+                for (size_t i = 0; i < vlen; ++i) depth += (v[i] == '[') - (v[i] == ']');
+                if (depth <= 0) {
+                    result.emplace_back(accum.c_str(), accum.length());
                     accum = "";
-                    continue;
+                    depth = 0;
                 }
+                continue;
             }
             if (vlen > 0) {
                 // brackets embed
-                if (v[0] == '[' && v[vlen-1] != ']') {
-                    accum = &v[1];
-                    continue;
+                if (v[0] == '[') {
+                    depth = 0;
+                    for (size_t i = 0; i < vlen; ++i) depth += (v[i] == '[') - (v[i] == ']');
+                    if (depth > 0) {
+                        accum = v;
+                        continue;
+                    }
+                    depth = 0;
                 }
                 result.emplace_back(v, vlen);
             }
+        }
+        if (accum != "") {
+            fprintf(stderr, "parse error, unclosed [bracket (expected: ']') in \"%s\"\n", accum.c_str());
+            exit(1);
         }
         return result;
     }
